@@ -149,8 +149,12 @@ fn limbs_to_str(l: &[u64]) -> String {
 
 // ---- field abstraction (harness side only: parse / print) ------------------
 
-trait Fld: Copy + Sized {
+trait Fld: Copy + Sized + PartialEq {
     const N8: usize;
+    /// the crate's deliberately non-canonical marker value (only Fq has one)
+    fn is_marker(&self) -> bool {
+        false
+    }
     fn from_le_checked(b: &[u8]) -> Result<Self, EncodingError>;
     fn le(&self) -> Vec<u8>;
     /// Harness extension: special tokens accepted in place of an `F`.
@@ -175,6 +179,9 @@ impl Fld for Fq {
         } else {
             None
         }
+    }
+    fn is_marker(&self) -> bool {
+        *self == Fq::SENTINEL
     }
 }
 impl Fld for Fr {
@@ -208,8 +215,15 @@ fn parse_f<T: Fld>(s: &str) -> Result<T, Fail> {
     T::from_le_checked(&le).map_err(|_| Bad)
 }
 
+/// Canonical integer of a field element.  A value whose internal representation is not the one the checked parser produces for its own
+/// bytes (an unreduced residue: `==`, `inverse`, hashing would treat it as a different element) is flagged.
 fn show_f<T: Fld>(x: &T) -> String {
-    le_to_hexint(&x.le())
+    let h = le_to_hexint(&x.le());
+    match T::from_le_checked(&x.le()) {
+        Ok(y) if y == *x && *x == y => h,
+        _ if x.is_marker() => h,
+        _ => format!("NONCANONICAL:{}", h),
+    }
 }
 
 fn show_el(e: &Element) -> String {
@@ -530,6 +544,16 @@ macro_rules! field_ops {
             c.need(1)?;
             let v: Vec<$T> = c.flist(0)?;
             okf(<$T as Product<&$T>>::product(v.iter()))
+        });
+        reg($ops, concat!($p, ".sum.lazy"), |c| {
+            c.need(1)?;
+            let v: Vec<$T> = c.flist(0)?;
+            okf(<$T as Sum<$T>>::sum(v.into_iter().filter(|_| true)))
+        });
+        reg($ops, concat!($p, ".product.lazy"), |c| {
+            c.need(1)?;
+            let v: Vec<$T> = c.flist(0)?;
+            okf(<$T as Product<&$T>>::product(v.iter().filter(|_| true)))
         });
         reg($ops, concat!($p, ".cmp"), |c| {
             c.need(2)?;
